@@ -485,6 +485,40 @@ def run_decoders(max_len):
                             if len(out) != nsym or any(o < lo or o > hi for o in out):
                                 fail(f"Python front end | {dname}.decode, {fname} | decoded symbol outside the support",
                                      f"words {[hex(int(x)) for x in w]}, {mname} model: {out}")
+        # seek with ARBITRARY positions and states, then decode: an error or symbols of the support, never a panic
+        states = [0, 1, 2**24, 2**31, 2**32 - 1, 2**32, 2**32 + 1, 2**63, 2**64 - 1, 2**64, -1]
+        cat = models[0][1]
+        counters["py_hostile_seeks"] = 0
+        for w in word_strings(0, min(max_len, 2)):
+            for pos in list(range(0, len(w) + 2)) + [2**31, 2**63, 2**64 - 1, -1]:
+                for st in states:
+                    for rng in ([None] + states[:7]):
+                        n += 1; counters["py_hostile_seeks"] += 1
+                        try:
+                            if rng is None:
+                                if len(w) and w[-1] == 0:
+                                    continue
+                                c = ANS(w) if len(w) else ANS()
+                                c.seek(pos, st)
+                            else:
+                                c = RDEC(w)
+                                c.seek(pos, (st, rng))
+                        except Exception as e:
+                            if is_panic(e):
+                                fail(f"Python front end | {'AnsCoder' if rng is None else 'RangeDecoder'}.seek | arbitrary position / state panics", f"words {[hex(int(x)) for x in w]}, seek({pos}, {st}{'' if rng is None else ', ' + str(rng)}): {str(e)[:100]}")
+                            continue
+                        except BaseException as e:
+                            fail(f"Python front end | {'AnsCoder' if rng is None else 'RangeDecoder'}.seek | arbitrary position / state panics", f"words {[hex(int(x)) for x in w]}, seek({pos}, {st}{'' if rng is None else ', ' + str(rng)}): {str(e)[:100]}")
+                            continue
+                        try:
+                            out = [int(x) for x in c.decode(cat, 3)]
+                            if any(o < 0 or o > 2 for o in out) or len(out) != 3:
+                                fail(f"Python front end | {'AnsCoder' if rng is None else 'RangeDecoder'}.decode after seek | decoded symbol outside the support", f"words {[hex(int(x)) for x in w]}, seek({pos}, {st}, {rng}): {out}")
+                        except AssertionError:
+                            if rng is None:
+                                fail("Python front end | AnsCoder.decode after seek | the ANS coder reports an error", f"words {[hex(int(x)) for x in w]}, seek({pos}, {st})")
+                        except BaseException as e:
+                            fail(f"Python front end | {'AnsCoder' if rng is None else 'RangeDecoder'}.decode after seek | arbitrary state makes decoding panic", f"words {[hex(int(x)) for x in w]}, seek({pos}, {st}, {rng}): {type(e).__name__}: {str(e)[:100]}")
     return n, failures, counters
 
 
